@@ -891,8 +891,7 @@ def gen_case(rng, big=False):
                         if kind == 's':
                             nid[0] += 1
                             tch = rng.choice([c for c in CHANNELS if c != 'log'] + [ch])
-                            acts.append('s~%s~%d~%d~%s' % (tch, 100 + nid[0], rng.choice([1, 100 + nid[0]]),
-                                                           rng.choice(['ok', 'raise'])))
+                            acts.append('s~%s~%d~@~%s' % (tch, 100 + nid[0], rng.choice(['ok', 'raise'])))
                         elif kind == 'u':
                             pool = [t for t in listeners if t['ch'] != 'log']
                             if pool and rng.random() < 0.8:
@@ -924,6 +923,16 @@ def gen_case(rng, big=False):
             if len(tie) > 1 and (sensitive or any(l['acts'] or l['out'] not in ('ok', 'raise') for l in tie)):
                 for k, l in enumerate(tie):
                     l['prio'] = p + k
+    # listeners subscribed from inside a listener get a priority no other listener of the case has
+    used = {l['prio'] for l in listeners}
+    for l in listeners:
+        for k, a in enumerate(l['acts']):
+            if '~@~' in a:
+                p = rng.choice([3, 7, 33, 77, 1000])
+                while p in used:
+                    p += 1
+                used.add(p)
+                l['acts'][k] = a.replace('~@~', '~%d~' % p)
     for l in listeners:
         gen_prio_route(rng, l, l['prio'])
     rng.shuffle(listeners)
@@ -954,12 +963,19 @@ def gen_case(rng, big=False):
                     t['prio'], t['arg'], t['attr'], t['deco'] = 50, None, None, False
                 else:
                     t['prio'] = rng.choice([1, 300]) + nid[0]
+                    while t['prio'] in used:
+                        t['prio'] += 1
+                    used.add(t['prio'])
                     gen_prio_route(rng, t, t['prio'])
                 toks.append(sub_token(t))
         elif k == 'sub':
             nid[0] += 1
+            p = 200 + nid[0]
+            while p in used:
+                p += 1
+            used.add(p)
             toks.append('sub:%s:%d:%d:%s:-' % (rng.choice(['start', 'stop', 'exit', 'c1', 'main']), 200 + nid[0],
-                                               200 + nid[0], rng.choice(['ok', 'raise'])))
+                                               p, rng.choice(['ok', 'raise'])))
         elif k == 'wait':
             ts = rng.choice([['EXITING'], ['STARTED'], ['STOPPED', 'EXITING'], ['STARTED', 'STOPPED'],
                              ['STARTING']])
@@ -1077,6 +1093,12 @@ def check_cases(ctx, cases, compare=True, cov=None, procs=1):
         for what, sig in oracle(toks, obs):
             ctx.oracle_fail({'tokens': toks}, what, sig)
         if model_lines is not None:
+            if any(p['ch'] == 'log' and p['result'] == 'fail' and p['call'] is not None
+                   and toks[p['call']].split(':')[0] not in ('pub', 'sub', 'unsub') for p in obs['pubs']):
+                # a raising log listener inside a lifecycle method: what happens next depends on where the
+                # method writes its log lines, which is not an observable of the property (known finding F22)
+                ctx.count('not_compared:failing_log_listener_inside_lifecycle_method')
+                continue
             model = canon_model(toks, model_lines[idx])
             if any('outoffuel' in r for r in model['R']):
                 ctx.count('discarded:model_out_of_fuel')
@@ -1286,8 +1308,13 @@ def _measure_priority(wspbus, arg, attr):
 def _measure_tables():
     import os as _os
     from cherrypy.process import wspbus
-    names = [n for n, v in vars(wspbus.states).items() if isinstance(v, wspbus._StateEnum.State)]
-    state_codes = [ST_CODE.get(n, 9) for n in names]
+    try:
+        names = [n for n in vars(wspbus.states) if n.isupper()]
+    except TypeError:
+        names = []
+    names = names or [n for n in dir(wspbus.states) if n.isupper()]
+    state_codes = sorted(ST_CODE.get(n, 9) for n in names)
+    ids = {id(getattr(wspbus.states, n)): n for n in names}
     chans = sorted(CH_CODE.get(c, 9) for c in getattr(wspbus.Bus(), 'listeners', {}))
     rows = []
     exit_codes = set()
@@ -1302,7 +1329,7 @@ def _measure_tables():
                 class TB(wspbus.Bus):
                     def __setattr__(self, k, v):
                         if k == 'state' and trace is not None and getattr(self, '_rec', False):
-                            trace.append(ST_CODE.get(getattr(v, 'name', None), 9))
+                            trace.append(ST_CODE.get(ids.get(id(v)), 9))
                         object.__setattr__(self, k, v)
                 bus = TB()
                 bus.state = getattr(wspbus.states, sn)
@@ -1335,7 +1362,7 @@ def tables(ctx):
     src = ['/- GENERATED by harness/c18.py from the live cherrypy.process.wspbus; do not edit. -/',
            'namespace CpModel.Gen.C18',
            '',
-           '/-- the states defined on `wspbus.states`, in definition order, as indices into `CpModel.Bus.St`',
+           '/-- the states defined on `wspbus.states`, sorted, as indices into `CpModel.Bus.St`',
            '    (STOPPED STARTING STARTED STOPPING EXITING; 9 = a state the model does not know) -/',
            'def stateCodes : List Nat := %s' % json.dumps(state_codes),
            '',
